@@ -230,86 +230,111 @@ Section Orphan.
     - destruct (IH l r a Er Ha) as [n' [A B]]. exists n'. split; [now right | exact B].
   Qed.
 
+  Lemma all_root_le_one (l : list addr) root : NoDup l -> (forall r, In r l -> r = root) -> (length l <= 1)%nat.
+  Proof.
+    intros Hd Hall. destruct l as [|x [|y l]]; simpl; try lia.
+    exfalso. inversion Hd as [|? ? Hn _]; subst. apply Hn.
+    rewrite (Hall x (or_introl eq_refl)), <- (Hall y (or_intror (or_introl eq_refl))). now left.
+  Qed.
+
+  Lemma nfiles_le_one roots root a : NoDup roots ->
+    (forall r, In r roots -> in_fileb cat r a = true -> r = root) -> nfiles cat roots a <= 1.
+  Proof.
+    intros Hd Hall. unfold nfiles.
+    assert (L : (length (filter (fun r => in_fileb cat r a) roots) <= 1)%nat).
+    { apply (all_root_le_one _ root); [now apply NoDup_filter|].
+      intros r Hr. apply filter_In in Hr as [H1 H2]. now apply Hall. }
+    lia.
+  Qed.
+
   (** the theorem *)
   Lemma delete_no_orphan (x : sys) root order sh a :
-    RC cat (ci x) -> registered (ci x) root = true -> trav cat (ls x) root = Some sh ->
+    RC cat (ci x) -> trav cat (ls x) root = Some sh ->
     snd (gstep cat po capacity x (GDelete root order)) = GDel true ->
-    In a (cidset sh) -> refs cat (ci x) a = 1 ->
+    In a (cidset sh) ->
+    (forall r, registered (ci x) r = true -> r <> root -> in_fileb cat r a = false) ->
     gone_or_pinned (ls (delete_run cat po capacity root order x)) a.
   Proof.
-    intros [Hd Hc] Hreg Et Hok Hin Hone. unfold delete_run. cbn [gstep] in *. unfold api_delete in *. rewrite Et in *.
+    intros Hrc Et Hok Hin Honly. unfold delete_run. cbn [gstep] in *. unfold api_delete in *. rewrite Et in *.
+    pose proof (trav_cat cat _ _ _ Et) as Ec.
+    set (c0 := register_ci (ci x) root sh) in *.
+    assert (Hrc0 : RC cat c0) by now apply RC_register_ci.
     assert (Hroot : data_has (ls x) root = true).
     { unfold trav in Et. destruct (cat_get cat root); [|discriminate].
-      destruct (data_has (ls x) root); [reflexivity | discriminate]. }
-    assert (Hcnt : cnt (ci x) a <= 1) by (rewrite Hc, Hone; lia).
-    destruct (order_ok root order (unrepeat (ci x) sh)) eqn:Eo; cbn [negb snd] in *; [|discriminate].
-    destruct (reorder order (unrepeat (ci x) sh)) as [l'|] eqn:Er; cbn [snd] in *; [|discriminate].
+      destruct (data_has (ls x) root); [reflexivity | simpl in Et; discriminate]. }
+    assert (Hcnt : cnt c0 a <= 1).
+    { destruct Hrc0 as [Hd Hc]. rewrite Hc. unfold refs. apply (nfiles_le_one _ root); [exact Hd|].
+      intros r Hr Hp. apply registered_In in Hr.
+      destruct (list_eq_dec N.eq_dec r root) as [->|Hn]; [reflexivity|]. exfalso.
+      unfold c0 in Hr. rewrite registered_register_other in Hr by exact Hn.
+      rewrite (Honly r Hr Hn) in Hp. discriminate. }
+    destruct (order_ok root order (unrepeat c0 sh)) eqn:Eo; cbn [negb snd] in *; [|discriminate].
+    destruct (reorder order (unrepeat c0 sh)) as [l'|] eqn:Er; cbn [snd] in *; [|discriminate].
     destruct (remove_all capacity root l' (ls x)) as [s1 [e|]] eqn:Ea; cbn [snd] in *; [discriminate|].
+    destruct (unrepeat_has c0 sh a Hin Hcnt) as [n Hn].
     destruct (list_eq_dec N.eq_dec a root) as [->|Hne].
-    - (* the root itself: removed by the last call *)
+    - (* the root itself: listed, hence removed by the last call *)
+      assert (Em : mem_addr root (map fst (unrepeat c0 sh)) = true).
+      { apply mem_addr_In. apply in_map_iff. now exists (root, n). }
+      rewrite Em in *.
       pose proof (set1_orphan root root s1 (or_introl eq_refl)) as G.
       destruct (set capacity 0 SRemove (Some root) [root] s1) as [s2 o2]. cbn [fst] in G.
-      destruct o2 as [r t|r|r|r|r|r t|f|c0 d| |]; cbn [snd fst ls] in *; try discriminate.
+      destruct o2 as [r t|r|r|r|r|r t|f|c1 d| |]; cbn [snd fst ls] in *; try discriminate.
       destruct r as [[]|]; cbn [snd fst ls] in *; try discriminate; exact G.
     - assert (Hl' : exists n, In (a, n) l' /\ 0 < n).
-      { destruct (unrepeat_has (ci x) sh a Hin Hcnt) as [n Hn].
-        apply andb_true_iff in Eo as [Eo E3]. apply andb_true_iff in Eo as [E1 E2].
+      { apply andb_true_iff in Eo as [Eo E3]. apply andb_true_iff in Eo as [E1 E2].
         apply Nat.eqb_eq in E1. apply nodupb_NoDup in E2.
-        set (want := filter (fun a0 => negb (bytes_eqb a0 root)) (map fst (unrepeat (ci x) sh))) in *.
+        set (want := filter (fun a0 => negb (bytes_eqb a0 root)) (map fst (unrepeat c0 sh))) in *.
         assert (Hw : In a want).
         { apply filter_In. split; [apply in_map_iff; now exists (a, n) | now rewrite bytes_eqb_neq]. }
         assert (Hincl : incl order want).
         { intros y Hy. rewrite forallb_forall in E3. apply mem_addr_In. now apply E3. }
         assert (Ho : In a order) by (apply (NoDup_length_incl E2 (l' := want)); [apply Nat.eq_le_incl; symmetry; exact E1 | exact Hincl | exact Hw]).
-        destruct (reorder_has order _ l' a Er Ho) as [n' [A B]]. exists n'. split; [exact A | now apply (unrepeat_pos (ci x) sh a)]. }
+        destruct (reorder_has order _ l' a Er Ho) as [n' [A B]]. exists n'. split; [exact A | now apply (unrepeat_pos c0 sh a)]. }
       destruct (remove_all_G root a Hne l' (ls x) s1 Ea Hroot (or_intror Hl')) as [G R].
+      destruct (mem_addr root (map fst (unrepeat c0 sh))); cbn [snd fst ls] in *; [|exact G].
       pose proof (set1_same capacity a root (Some root) s1 Hne) as F.
       destruct (set capacity 0 SRemove (Some root) [root] s1) as [s2 o2]. cbn [fst] in F.
       assert (G2 : gone_or_pinned s2 a) by exact (same_G a s1 s2 F G).
-      destruct o2 as [r t|r|r|r|r|r t|f|c0 d| |]; cbn [snd fst ls] in *; try discriminate.
+      destruct o2 as [r t|r|r|r|r|r t|f|c1 d| |]; cbn [snd fst ls] in *; try discriminate.
       destruct r as [[]|]; cbn [snd fst ls] in *; try discriminate; exact G2.
   Qed.
 
   Lemma delete_no_orphan_thm (h : list gop) root order sh a :
-    guarded cat po capacity sys_init h ->
     let x := gexec cat po capacity sys_init h in
-    registered (ci x) root = true -> trav cat (ls x) root = Some sh ->
+    trav cat (ls x) root = Some sh ->
     snd (gstep cat po capacity x (GDelete root order)) = GDel true ->
-    In a (cidset sh) -> refs cat (ci x) a = 1 ->
+    In a (cidset sh) ->
+    (forall r, registered (ci x) r = true -> r <> root -> in_fileb cat r a = false) ->
     data_get (ls (delete_run cat po capacity root order x)) a = None \/
     pin_get (ls (delete_run cat po capacity root order x)) a <> None.
   Proof.
-    intros Hg x Hreg Et Hok Hin Hone.
-    exact (delete_no_orphan x root order sh a (RC_history cat po capacity h sys_init (RC_init cat) Hg) Hreg Et Hok Hin Hone).
+    intros x Et Hok Hin Honly.
+    exact (delete_no_orphan x root order sh a (RC_history cat po capacity h sys_init (RC_init cat)) Et Hok Hin Honly).
   Qed.
 End Orphan.
 
-(** ** "others stay readable": the three refutations (evaluated) *)
+(** ** "others stay readable": the refutation that remains (eviction), and the two DELETE
+    witnesses of the unrepaired code, now harmless *)
 Lemma others_readable_refuted :
-  (exists cat po cap h root order rb,
+  exists cat po cap h rb ctx,
      let x := gexec cat po cap sys_init h in
-     registered (ci x) rb = true /\ registered (ci x) root = false /\ rb <> root /\
-     readable cat (ls x) rb = true /\
-     snd (gstep cat po cap x (GDelete root order)) = GDel true /\
-     readable cat (ls (delete_run cat po cap root order x)) rb = false) /\
-  (exists cat po cap h root order rb,
-     let x := gexec cat po cap sys_init h in
-     guarded cat po cap sys_init (h ++ [GDelete root order]) /\
-     registered (ci x) rb = true /\ registered (ci x) root = true /\ rb <> root /\
-     readable cat (ls x) rb = true /\
-     snd (gstep cat po cap x (GDelete root order)) = GDel true /\
-     readable cat (ls (delete_run cat po cap root order x)) rb = false) /\
-  (exists cat po cap h rb ctx,
-     let x := gexec cat po cap sys_init h in
-     guarded cat po cap sys_init (h ++ [GGcEnd]) /\
      s_gcrun (ls x) = Some ctx /\ ~ In rb (cand_roots (g_cands ctx)) /\
      registered (ci x) rb = true /\ readable cat (ls x) rb = true /\
-     readable cat (ls (gc_run cat po cap x)) rb = false).
+     readable cat (ls (gc_run cat po cap x)) rb = false.
 Proof.
-  split; [|split].
-  - exists cat0, po0, 100, w_del_unreg, rB, [x1; x3], rM. vm_compute. repeat split; try reflexivity; discriminate.
-  - exists cat0, po0, 100, w_del_root, rB, [], rM. vm_compute. repeat split; try reflexivity; try discriminate; intros; reflexivity.
-  - exists cat0, po0, 1, w_gc_root, rN. eexists. vm_compute.
-    repeat split; try reflexivity; try discriminate; try (intros; reflexivity).
-    intros [H|[]]. discriminate.
+  exists cat0, po0, 1, w_gc_root, rN. eexists. vm_compute.
+  repeat split; try reflexivity; try discriminate.
+  intros [H|[]]. discriminate.
 Qed.
+
+Lemma delete_witnesses_repaired :
+  (let x := gexec cat0 po0 100 sys_init w_del_unreg in
+   snd (gstep cat0 po0 100 x (GDelete rB [])) = GDel true /\
+   readable cat0 (ls (delete_run cat0 po0 100 rB [] x)) rM = true /\
+   ci (delete_run cat0 po0 100 rB [] x) = ci x) /\
+  (let x := gexec cat0 po0 100 sys_init w_del_root in
+   snd (gstep cat0 po0 100 x (GDelete rB [])) = GDel true /\
+   readable cat0 (ls (delete_run cat0 po0 100 rB [] x)) rM = true /\
+   registered (ci (delete_run cat0 po0 100 rB [] x)) rB = false).
+Proof. vm_compute. repeat split; reflexivity. Qed.
